@@ -201,6 +201,7 @@ mut("c14_close_takes_blob_first", "src/storage/core.rs", """            if let S
                 ablob.fsyncdata().await?;
                 blobs.write().await.push(ablob).await;
             }""", ["C14", "C11"], "reverts fix: blob held by a local across the fsync await")
+mut("c14_close_does_not_wait_creation", "src/storage/core.rs", "        let _ = self.inner.blob_creations.write().await;\n", "", ["C14"], "reverts fix: close() does not wait for a detached blob creation")
 mut("c14_create_in_caller", "src/storage/core.rs", """            let blob = tokio::spawn(async move { Blob::open_new(next, iodriver, config).await })
                 .await
                 .map_err(|e| anyhow!("BLOB creation task failed: {}", e))??;""", "            let blob = Blob::open_new(next, iodriver, config).await?;", ["C14"], "reverts fix F10: blob creation cancellable")
